@@ -23,14 +23,24 @@ mod helpx {
     fn fresh() -> u32 { NEXT.with(|n| { let v = n.get(); n.set(v + 1); BORN.with(|b| b.borrow_mut().push(v)); v }) }
     fn tick() { FUSE.with(|f| { let v = f.get(); if v == 0 { f.set(-1); panic!("scripted"); } if v > 0 { f.set(v - 1); } }) }
 
-    pub struct H(pub u32);
+    /// identity (unique, for the drop accounting) and value (kept by Clone, for the comparison with std)
+    pub struct H(pub u32, pub u32);
+    thread_local! { static VAL: Cell<u32> = const { Cell::new(0) }; }
+    fn next_val() -> u32 { VAL.with(|v| { let x = v.get(); v.set(x + 1); x }) }
+    impl H { pub fn new() -> H { H(fresh(), next_val()) } }
     impl Drop for H { fn drop(&mut self) { HDROPS.with(|d| d.borrow_mut().push(self.0)); } }
-    impl Clone for H { fn clone(&self) -> H { tick(); H(fresh()) } }
+    impl Clone for H { fn clone(&self) -> H { tick(); H(fresh(), self.1) } }
+    impl PartialEq for H { fn eq(&self, o: &H) -> bool { self.1 == o.1 } }
     // a one-byte element with a destructor (map_in_place to a smaller type); identity modulo 256 is
     // not unique, so it is counted like the zero-sized one
     pub struct Small(pub u8);
     impl Drop for Small { fn drop(&mut self) { ZDROP.with(|d| d.set(d.get() + 1)); } }
     fn fresh_small() -> u8 { ZBORN.with(|b| b.set(b.get() + 1)); 1 }
+    pub trait Val { fn val(&self) -> u32; }
+    impl Val for H { fn val(&self) -> u32 { self.1 } }
+    impl Val for Z0 { fn val(&self) -> u32 { 0 } }
+    thread_local! { static FINAL: RefCell<Option<Vec<u32>>> = const { RefCell::new(None) }; }
+    fn record<T: Val>(s: &[T]) { FINAL.with(|f| *f.borrow_mut() = Some(s.iter().map(|e| e.val()).collect())); }
     pub trait Elem { type Smaller; fn smaller() -> Self::Smaller; }
     impl Elem for H { type Smaller = Small; fn smaller() -> Small { Small(fresh_small()) } }
     impl Elem for Z0 { type Smaller = Z0; fn smaller() -> Z0 { z0() } }
@@ -161,7 +171,7 @@ mod helpx {
                 let _ = src_ids;
             }};
         }
-        if zst { run!(Z0, z0(), |_e: &Z0| 0u32); } else { run!(H, H(fresh()), |e: &H| e.0); }
+        if zst { run!(Z0, z0(), |_e: &Z0| 0u32); } else { run!(H, H::new(), |e: &H| e.0); }
         // everything that was born has been dropped exactly once by now
         if zst {
             let (b, d) = (ZBORN.with(|x| x.get()), ZDROP.with(|x| x.get()));
@@ -367,6 +377,7 @@ mod helpx {
         HDROPS.with(|d| d.borrow_mut().clear()); BORN.with(|b| b.borrow_mut().clear());
         ZBORN.with(|b| b.set(0)); ZDROP.with(|d| d.set(0));
         FUSE.with(|f| f.set(fuse));
+        VAL.with(|v| v.set(0)); FINAL.with(|f| *f.borrow_mut() = None);
         let mut bump: Bump = Bump::new();
         let n = fr.carg;
         macro_rules! body {
@@ -409,6 +420,14 @@ mod helpx {
                     } }};
                 }
                 macro_rules! poor { ($v:ident, $op:expr, $len:expr) => {{ let _ = ($op, $len); }}; }
+                // BumpVec only
+                macro_rules! richest {
+                    ($v:ident, $op:expr, $len:expr) => {{ let len = $len; match *$op {
+                        ZsOp::SpliceVec(a, b, k) => { let (a, b) = (a.min(len), b.min(len)); let repl: Vec<$t> = (0..k).map(|_| $mk).collect(); let sp = $v.splice(a..b, repl); drop(sp); }
+                        ZsOp::SplitOff(a, b) => { let (a, b) = (a.min(len), b.min(len)); let off = $v.split_off(a..b); drop(off); }
+                        _ => rich!($v, $op, len),
+                    } }};
+                }
                 // the constructors take an iterator / a value / an owned slice
                 macro_rules! construct {
                     ($ty:ident, $alloc:expr) => {{
@@ -425,7 +444,8 @@ mod helpx {
                 match kind {
                     0 => {
                         let mut v: BumpVec<$t, &Bump> = construct!(BumpVec, &bump);
-                        ops_on!(v, rich);
+                        ops_on!(v, richest);
+                        record(&v);
                         match fr.fin {
                             0 => drop(v),
                             1 => { let b = v.into_boxed_slice(); drop(b); }
@@ -438,12 +458,13 @@ mod helpx {
                         let mut v: FixedBumpVec<$t> = match fr.ctor {
                             1 => FixedBumpVec::from_iter_in((0..n).map(|_| { tick(); $mk }), &bump),
                             2 => FixedBumpVec::from_iter_exact_in((0..n).map(|_| { tick(); $mk }), &bump),
-                            _ => FixedBumpVec::with_capacity_in(64, &bump),
+                            _ => FixedBumpVec::with_capacity_in(256, &bump),
                         };
                         // a fixed vector made from an iterator is full: only shrinking operations apply
                         let full = matches!(fr.ctor, 1 | 2);
                         if !full { ops_on!(v, rich); } else { for op in ops.iter() { let len = v.len(); match *op { ZsOp::Pop => { v.pop(); } ZsOp::Truncate(k) => v.truncate(k), ZsOp::Remove(i) => { if i < len { v.remove(i); } }
                             ZsOp::Retain(..) | ZsOp::DedupBy(..) | ZsOp::Drain(..) | ZsOp::ExtractIf(..) => { rich!(v, op, len); } ZsOp::PopIf(m) => { let _ = v.pop_if(|_| { tick(); m % 2 == 0 }); } _ => {} } } }
+                        record(&v);
                         match fr.fin {
                             1 => { let b = v.into_boxed_slice(); drop(b); }
                             2 => { let w = v.into_vec(&bump); drop(w); }
@@ -455,6 +476,7 @@ mod helpx {
                     2 => {
                         let mut v: MutBumpVec<$t, &mut Bump> = construct!(MutBumpVec, &mut bump);
                         ops_on!(v, rich);
+                        record(&v);
                         match fr.fin { 1 => { let b = v.into_boxed_slice(); drop(b); } 4 => { let mut it = v.into_iter(); for _ in 0..n { if it.next().is_none() { break; } } } _ => drop(v) }
                     }
                     _ => {
@@ -465,7 +487,7 @@ mod helpx {
                 }
             }};
         }
-        let res = catch_unwind(AssertUnwindSafe(|| { if fr.sized { body!(H, H(fresh())); } else { body!(Z0, z0()); } }));
+        let res = catch_unwind(AssertUnwindSafe(|| { if fr.sized { body!(H, H::new()); } else { body!(Z0, z0()); } }));
         let exploded = FUSE.with(|f| { let v = f.get(); f.set(-1); v }) == -1 && fuse >= 0;
         let desc = format!("{}", hh_line(fr, kind, fuse, ops));
         if res.is_err() && !exploded { notes.push(format!("helpers: a framed collection history panicked although the scripted panic did not fire ({desc})")); }
@@ -478,6 +500,69 @@ mod helpx {
             let mut twice = vec![]; for w in dropped.windows(2) { if w[0] == w[1] { twice.push(w[0]); } }
             notes.push(format!("helpers: elements of a collection lost {lost:?} / dropped twice {twice:?} ({} born, {} drops; {desc})", born.len(), dropped.len()));
         }
+        // C08 over sequences: the same history on std::vec::Vec (forward vectors, sized elements, no panic)
+        if fr.sized && kind <= 2 && res.is_ok() {
+            let got = FINAL.with(|f| f.borrow_mut().take());
+            match (got, shadow_run(fr, kind, fuse, ops)) {
+                (Some(g), Some(w)) => { if g != w { notes.push(format!("helpers: contents differ from std::vec::Vec after a history: {g:?} vs {w:?} ({desc})")); } }
+                (Some(_), None) => notes.push(format!("helpers: std::vec::Vec panics on this history, the bump vector did not ({desc})")),
+                _ => {}
+            }
+        }
         notes
+    }
+
+    /// the same framed history on std::vec::Vec<H>; None when it panicked
+    fn shadow_run(fr: &Frame, kind: u8, fuse: i64, ops: &[ZsOp]) -> Option<Vec<u32>> {
+        FUSE.with(|f| f.set(fuse)); VAL.with(|v| v.set(0));
+        let n = fr.carg;
+        let r = catch_unwind(AssertUnwindSafe(|| -> Vec<u32> {
+            let mut v: Vec<H> = if kind == 1 {
+                match fr.ctor { 1 | 2 => (0..n).map(|_| { tick(); H::new() }).collect(), _ => Vec::new() }
+            } else {
+                match fr.ctor {
+                    0 => vec![H::new(); n],
+                    1 | 2 => (0..n).map(|_| { tick(); H::new() }).collect(),
+                    3 => (0..n).map(|_| H::new()).collect(),
+                    4 => vec![H::new(), H::new()],
+                    _ => Vec::new(),
+                }
+            };
+            let full = kind == 1 && matches!(fr.ctor, 1 | 2);
+            for op in ops.iter() {
+                let len = v.len();
+                let shrinking = matches!(op, ZsOp::Pop | ZsOp::Truncate(_) | ZsOp::Remove(_) | ZsOp::Retain(..) | ZsOp::DedupBy(..) | ZsOp::Drain(..) | ZsOp::ExtractIf(..) | ZsOp::PopIf(_));
+                if full && !shrinking { continue; }
+                match *op {
+                    ZsOp::Push => v.push(H::new()),
+                    ZsOp::PushWith => { tick(); v.push(H::new()); }
+                    ZsOp::PopIf(m) => { let _ = v.pop_if(|_| { tick(); m % 2 == 0 }); }
+                    ZsOp::InsertMut(i) | ZsOp::Insert(i) => v.insert(i.min(len), H::new()),
+                    ZsOp::Resize(k) => v.resize(k, H::new()),
+                    ZsOp::ResizeWith(k) => v.resize_with(k, || { tick(); H::new() }),
+                    ZsOp::ExtendClone(k) => { let src: Vec<H> = (0..k).map(|_| H::new()).collect(); v.extend_from_slice(&src); }
+                    ZsOp::WithinClone(k) => v.extend_from_within(0..k.min(len)),
+                    ZsOp::Truncate(k) => v.truncate(k),
+                    ZsOp::Pop => { v.pop(); }
+                    ZsOp::Remove(i) => { if i < len { v.remove(i); } }
+                    ZsOp::SwapRemove(i) => { if i < len { v.swap_remove(i); } }
+                    ZsOp::Clear => v.clear(),
+                    ZsOp::AppendVec(k) => { let mut src: Vec<H> = (0..k).map(|_| H::new()).collect(); v.append(&mut src); }
+                    ZsOp::AppendDrain(k) => { let mut src: Vec<H> = (0..k + 2).map(|_| H::new()).collect(); v.extend(src.drain(1..k + 1)); }
+                    ZsOp::AppendArray => v.extend([H::new(), H::new(), H::new()]),
+                    ZsOp::Retain(mask) => { let mut k = 0u32; v.retain(|_| { tick(); k += 1; (mask >> (k % 8)) & 1 == 1 }); }
+                    ZsOp::DedupBy(mask) => { let mut k = 0u32; v.dedup_by(|_, _| { tick(); k += 1; (mask >> (k % 8)) & 1 == 1 }); }
+                    ZsOp::Drain(a, b, take) => { let (a, b) = (a.min(len), b.min(len)); let mut d = v.drain(a..b); for _ in 0..take { if d.next().is_none() { break; } } }
+                    ZsOp::ExtractIf(mask, take) => { let mut k = 0u32; let mut it = v.extract_if(.., |_| { tick(); k += 1; (mask >> (k % 8)) & 1 == 1 }); for _ in 0..take { if it.next().is_none() { break; } } }
+                    // BumpVec only (kind 0); on the other kinds they do nothing
+                    ZsOp::SpliceVec(a, b, k) => { if kind == 0 { let (a, b) = (a.min(len), b.min(len)); let repl: Vec<H> = (0..k).map(|_| H::new()).collect(); let sp = v.splice(a..b, repl); drop(sp); } }
+                    ZsOp::SplitOff(a, b) => { if kind == 0 { let (a, b) = (a.min(len), b.min(len)); let off: Vec<H> = v.drain(a..b).collect(); drop(off); } }
+                    ZsOp::IntoIter(_) | ZsOp::MapInPlace => {}
+                }
+            }
+            v.iter().map(|e| e.1).collect()
+        }));
+        FUSE.with(|f| f.set(-1));
+        r.ok()
     }
 }
